@@ -43,6 +43,7 @@ HARNESSES = {
     'k_api_ticks_video': {'kind': 'complete', 'domain': 'all f64 bit patterns for pts and dts of the first frame, real Muxer::write_video_with_dts (VP9 keyframe)', 'timeout': 1800, 'tier': 'quick'},
     'k_api_ticks_second_frame': {'kind': 'complete', 'domain': 'all f64 bit patterns for the second frame time, real Muxer::write_video', 'timeout': 1800, 'tier': 'quick'},
     'k_api_ticks_audio': {'kind': 'complete', 'domain': 'all f64 bit patterns for the first video time and the first audio time, real Muxer::write_video + write_audio (VP9 + Opus)', 'timeout': 2400, 'tier': 'quick'},
+    'k_api_audio_gate': {'kind': 'complete', 'domain': 'all f64 bit patterns for the first and second video presentation times and the audio time (VP9 + Opus, write_video_with_dts / write_audio)', 'timeout': 2400, 'tier': 'quick'},
     'k_ticks_nearest': {'kind': 'complete', 'domain': 'all finite f64 seconds x >= 0 with x*90000 < 2^53', 'timeout': 900, 'tier': 'thorough'},
     'kb_total_duration': {'kind': 'bounded', 'domain': 'up to 4 durations, all u32 values', 'timeout': 300, 'tier': 'quick'},
     'kb_total_duration_fits': {'kind': 'bounded', 'domain': 'up to 3 samples, all u32 / absent durations, all u64 timestamps', 'timeout': 600, 'tier': 'quick'},
@@ -61,6 +62,7 @@ HARNESSES = {
     'kb_write_counted_retries': {'kind': 'bounded', 'domain': '3-byte buffer, every schedule of up to 4 Interrupted / one-byte / full / failing write results', 'timeout': 900, 'tier': 'quick'},
     'kb_parsers_vp9_opus_small': {'kind': 'bounded', 'domain': 'every input of at most 8 bytes: extract_vp9_config, is_vp9_keyframe, is_valid_vp9_frame, is_valid_opus_packet, opus_packet_samples (panic freedom)', 'timeout': 1200, 'tier': 'quick'},
     'kb_moov_next_track_id': {'kind': 'bounded', 'domain': 'build_moov_box on empty sample tables, VP9 video, with / without an Opus audio track', 'timeout': 1200, 'tier': 'quick'},
+    'kb_media_segment_one': {'kind': 'bounded', 'domain': 'build_media_segment on one 1-byte sample, all u64 pts/dts/base, all u32 sequence numbers', 'timeout': 1200, 'tier': 'quick'},
     'kb_is_keyframe_h264': {'kind': 'bounded', 'domain': 'frames of 1..6 symbolic bytes, H.264 probe vs independent IDR scan', 'timeout': 900, 'tier': 'quick'},
     'kb_is_keyframe_h265': {'kind': 'bounded', 'domain': 'frames of 1..6 symbolic bytes, H.265 probe vs independent IDR/CRA scan', 'timeout': 900, 'tier': 'quick'},
     'kb_is_keyframe_av1_vp9': {'kind': 'bounded', 'domain': 'frames of 1..6 symbolic bytes, AV1 / VP9 probes (panic freedom)', 'timeout': 900, 'tier': 'quick'},
